@@ -26,15 +26,16 @@ def run(chk):
     trace = os.path.join(vlib.WORK, "c14.ndjson")
     out = vlib.run_harness(["c14", "record", trace, str(chk.seed), chk.tier], timeout=3000)
     chk.evaluations += out[-1]["evaluations"]
-    ok, un, res = vlib.validate_trace("ParSum_Trace", "ParSum_Trace", trace, timeout=2400, tag="c14")
-    chk.add_tlc(res, "observed-schedules")
-    lines = open(trace).read().splitlines()
-    if ok:
+    # events are independent of each other (the trace spec keeps no state but its position): validate in parallel chunks
+    results, lines = vlib.validate_trace_parallel("ParSum_Trace", "ParSum_Trace", trace, nchunks=14, boundary='{"', timeout=2400, tag="c14", xmx="4g")
+    for ok, un, res in results:
+        chk.add_tlc(res, "observed-schedules" if "observed-schedules" not in chk.parts else None)
+        if not ok:
+            e = json.loads(lines[un - 1]) if un else {}
+            what = "run/%s/chunks%s/threads%s" % (e.get("field", "").split("::")[-1], e.get("chunks"), e.get("threads")) if e.get("ev") == "run" else "e2e/%s/threads%s" % (e.get("name"), e.get("threads"))
+            chk.mismatch({"case": "parsum/" + what, "event": {k: (v if not isinstance(v, list) or len(v) < 30 else v[:30] + ["..."]) for k, v in e.items()}, "line": un})
+    if all(ok for ok, _, _ in results):
         chk.traces += len(lines)
-    else:
-        e = json.loads(lines[un - 1]) if un else {}
-        what = "run/%s/chunks%s/threads%s" % (e.get("field", "").split("::")[-1], e.get("chunks"), e.get("threads")) if e.get("ev") == "run" else "e2e/%s/threads%s" % (e.get("name"), e.get("threads"))
-        chk.mismatch({"case": "parsum/" + what, "event": {k: (v if not isinstance(v, list) or len(v) < 30 else v[:30] + ["..."]) for k, v in e.items()}, "line": un})
     e = json.loads(lines[3])
     chk.sample({"chunks": e["chunks"], "threads": e["threads"], "states": e["states"], "log_head": e["log"][:12]})
     chk.notes.append("largest number of fold states in one observed schedule: %s" % out[-1]["extra"]["max_states"])
